@@ -83,8 +83,8 @@ CHECKS["C02"] = {
                     "unit backend: the Core Lightning node is an in-process imitation of its REST interface (invoice / listinvoices); the LND adapter needs a gRPC node and is not exercised"],
     "units": [
         plain("regress", "^TestRegress"),
-        rapid("ledger", "^TestLedger$", 480, 12000, qs=8, ts=16),
-        rapid("sched", "^TestSchedLedger$", 300, 7200, qs=6, ts=16),
+        rapid("ledger", "^TestLedger$", 480, 8000, qs=8, ts=16),
+        rapid("sched", "^TestSchedLedger$", 300, 4000, qs=6, ts=16),
         rapid("backend", "^TestBackendAmounts$", 200, 10000, qs=4, ts=16),
         plain("schedenum", "^TestSchedLedgerEnum$", qs=16, ts=16, ttimeout=3300),
     ],
@@ -106,8 +106,8 @@ CHECKS["C01"] = {
     "level_note": _WORLD_NOTE + "Interleavings are explored at storage/LN-call granularity (each MintDB method is one SQLite statement/transaction on a single connection).",
     "assumptions": ["interleaving granularity = one storage or Lightning call", "Lightning backend modelled by harness/lnmodel"],
     "units": [
-        rapid("seq", "^TestSeq$", 320, 6000, qs=6, ts=16),
-        rapid("sched", "^TestSched$", 480, 18000, qs=6, ts=16),
+        rapid("seq", "^TestSeq$", 320, 4000, qs=6, ts=16),
+        rapid("sched", "^TestSched$", 480, 8000, qs=6, ts=16),
         plain("schedenum", "^TestSchedEnum$", qs=16, ts=16, ttimeout=3300),
     ],
 }
@@ -124,8 +124,8 @@ CHECKS["C03"] = {
     "level_note": _WORLD_NOTE + "The settlement notification is delivered by the harness (Recv blocks until then) and the step completes when the watcher goroutine has exited.",
     "assumptions": ["Lightning backend modelled by harness/lnmodel", "interleaving granularity = one storage or Lightning call"],
     "units": [
-        rapid("seq", "^TestSeq$", 400, 7200, qs=6, ts=16),
-        rapid("sched", "^TestSched$", 400, 12000, qs=6, ts=16),
+        rapid("seq", "^TestSeq$", 400, 6000, qs=6, ts=16),
+        rapid("sched", "^TestSched$", 400, 6000, qs=6, ts=16),
         plain("schedenum", "^TestSchedEnum$", qs=16, ts=16, ttimeout=3300),
     ],
 }
@@ -141,7 +141,7 @@ CHECKS["C09"] = {
     "level_note": _WORLD_NOTE + "Reference derivation in harness/ref (pinned to BIP-32 TV1 and the NUT-02 vector). Mint seeds come from a fixed pool of 6 so that reference keys can be cached.",
     "assumptions": ["reference derivation harness/ref correct", "mint seed pre-seeded into the database before first start (pool of 6)"],
     "units": [
-        rapid("lifecycle", "^TestLifecycle$", 240, 7200, qs=8, ts=16),
+        rapid("lifecycle", "^TestLifecycle$", 240, 6000, qs=8, ts=16),
     ],
 }
 
@@ -158,7 +158,7 @@ CHECKS["C15"] = {
     "level_note": _WORLD_NOTE,
     "assumptions": ["Lightning backend modelled by harness/lnmodel", "empty query lists are C06's subject and are not generated here"],
     "units": [
-        rapid("truth", "^TestTruth$", 400, 12000, qs=8, ts=16),
+        rapid("truth", "^TestTruth$", 400, 8000, qs=8, ts=16),
         rapid("fault", "^TestFaultStates$", 480, 9600, qs=4, ts=16),
     ],
 }
@@ -175,8 +175,8 @@ CHECKS["C16"] = {
     "level_note": _WORLD_NOTE + "Issued totals stay far below 2^62 (SQLite SUM is int64); amounts >= 2^63 are only requested, where refusal (by limit or by the Lightning backend, which cannot invoice them) is the expected answer.",
     "assumptions": ["Lightning backend refuses invoices above 2^40 sat like real backends", "totals < 2^62", "interleaving granularity of the schedule units = one storage or Lightning call"],
     "units": [
-        rapid("balances", "^TestBalances$", 400, 12000, qs=8, ts=16),
-        rapid("sched", "^TestSchedTotals$", 300, 7200, qs=6, ts=16),
+        rapid("balances", "^TestBalances$", 400, 8000, qs=8, ts=16),
+        rapid("sched", "^TestSchedTotals$", 300, 4000, qs=6, ts=16),
         plain("schedenum", "^TestSchedTotalsEnum$", qs=16, ts=16, ttimeout=3300),
     ],
 }
@@ -216,8 +216,8 @@ CHECKS["C06"] = {
     "assumptions": ["snapshot covers the objects known to the model plus those referenced by the probe", "interleaving granularity of the schedule units = one storage or Lightning call"],
     "units": [
         plain("regress", "^TestRegress"),
-        rapid("rejected", "^TestRejected$", 240, 12000, qs=8, ts=16),
-        rapid("sched", "^TestSchedRefused$", 300, 7200, qs=6, ts=16),
+        rapid("rejected", "^TestRejected$", 240, 8000, qs=8, ts=16),
+        rapid("sched", "^TestSchedRefused$", 300, 4000, qs=6, ts=16),
         plain("schedenum", "^TestSchedRefusedEnum$", qs=16, ts=16, ttimeout=3300),
     ],
 }
@@ -435,7 +435,7 @@ CHECKS["C20"] = {
     "level_note": _WORLD_NOTE + "Websocket endpoint (/v1/ws) and cache expiry (TTL) are not exercised. Calls of the mint's background watcher goroutines are not attributed to a request.",
     "assumptions": ["handler served in-process via httptest (no sockets)", "cache TTL not exercised"],
     "units": [
-        rapid("surface", "^TestSurface$", 320, 12000, qs=8, ts=16),
+        rapid("surface", "^TestSurface$", 320, 8000, qs=8, ts=16),
     ],
 }
 
